@@ -83,7 +83,9 @@ class NormalizeSliceOrIndex(Contract):
             if tag == "int":
                 # an integer result stands for the contiguous run starting there: legal when at most one position
                 # is selected, or the positions are contiguous
-                sel.append(z3.Implies(g, z3.And(z3.Implies(cnt >= 1, x == lo), z3.Or(cnt <= 1, stp == 1))))
+                # (for step 1 the integer is the splice point even when nothing is selected: l[2:2] = [x] inserts at 2)
+                sel.append(z3.Implies(g, z3.And(z3.Implies(cnt >= 1, x == lo), z3.Implies(c == 1, x == a),
+                                                z3.Or(cnt <= 1, stp == 1))))
                 nf.append(z3.Implies(g, z3.And(0 <= x, x <= length)))
             elif tag == "slice":
                 na, nb, nc, wf = x
@@ -186,3 +188,421 @@ class RemovedItems(Contract):
 
     def covers(self, cx, ov, info):
         return [("returns", lambda k, p, s: k == "return")]
+
+
+# ---------------------------------------------------------------------------------------------
+# TraitList methods
+# ---------------------------------------------------------------------------------------------
+
+def make_list_self(cx, cls="TraitList", extra_fields=None):
+    """Standard pre-state: `self` is a TraitList holding an arbitrary sequence `items`, with an arbitrary
+    (opaque) item validator and an arbitrary list of (opaque) notifiers."""
+    s0 = z3.Const("items", SeqV)
+    V = Validator(cx, "item")
+    st = St()
+    nref = VRef(cx.new_oid())
+    st = st.put(nref.oid, HObj("list", z3.Const("notifiers", SeqV)))
+    self_ref = VRef(cx.new_oid())
+    fields = {"item_validator": V.as_value(), "notifiers": nref}
+    fields.update(extra_fields or {})
+    st = st.put(self_ref.oid, HObj("list", s0, cls, fields))
+    st = st.gset("events", ())
+    return st, self_ref, s0, V
+
+
+def first_failing(cx, V, S):
+    """fresh k: -1 if the validator accepts every item of S, else the first index it rejects."""
+    key = ("ff", V.name, S.sexpr())
+    cache = cx.__dict__.setdefault("_ff", {})
+    if key not in cache:
+        k = cx.fresh_int("kspec")
+        j = z3.Int("j!ff")
+        n = z3.Length(S)
+        cx.axioms.append(z3.Or(
+            z3.And(k == -1, z3.ForAll([j], z3.Implies(z3.And(0 <= j, j < n), V.ok(S[j])))),
+            z3.And(0 <= k, k < n, z3.Not(V.ok(S[k])), z3.ForAll([j], z3.Implies(z3.And(0 <= j, j < k), V.ok(S[j]))))))
+        cache[key] = k
+    return cache[key]
+
+
+def validated_seq(cx, V, S):
+    """The sequence of converted items [val(x) for x in S] (same function symbol the engine uses)."""
+    xj = z3.Const("x!spec", Val)
+    R = cx.map_fn(V.val(xj), xj)(S)
+    j = z3.Int("j!vs")
+    cx.axioms.append(z3.And(z3.Length(R) == z3.Length(S),
+                            z3.ForAll([j], z3.Implies(z3.And(0 <= j, j < z3.Length(S)), R[j] == V.val(S[j])))))
+    return R
+
+
+class ListMutator(Contract):
+    path = PATH
+    properties = ("C05", "C04", "C19")
+    cls = "TraitList"
+    inline = ((None, "_removed_items"),)
+    assumptions = ("A-PY", "A-BUILTIN:list", "A-EQ", "A-CB:validator", "A-CB:notifier-does-not-mutate")
+    op = None             # builtin list method name of the reference
+    may_emit_identity = False
+
+    # -- argument description: subclasses implement args(cx, ov) -> (engine args, kwargs, info)
+    def args(self, cx, ov):
+        raise NotImplementedError
+
+    def setup(self, cx, I, ov):
+        st, self_ref, s0, V = make_list_self(cx, self.cls)
+        st, args, kwargs, info = self.args(cx, ov, st)
+        info.update(s0=s0, V=V, self_ref=self_ref)
+        info.setdefault("witness", {})["items"] = s0
+        return st, [self_ref] + args, kwargs, info
+
+    # reference: what to validate and which builtin call to make
+    def reference(self, cx, I, ov, info):
+        """-> (list of validator-failure descriptions (cond, exc term), builtin outcomes
+        [(kind, payload, guard, seq_after, heap)]), computed on a plain list holding the same items."""
+        raise NotImplementedError
+
+    def run_builtin(self, I, info, name, args, kwargs=None):
+        B = I.bi
+        st = St(heap={1: HObj("list", info["s0"])})
+        outs = B.call_method("list", name, VRef(1), args, kwargs or {}, st, lambda v, s2: [("return", v, s2)])
+        res = []
+        for (kind, payload, st2) in outs:
+            g = z3.And(*st2.pc) if st2.pc else z3.BoolVal(True)
+            res.append((kind, payload, g, st2.heap[1].payload, st2))
+        return res
+
+    def post(self, cx, I, ov, info, kind, payload, st):
+        B = I.bi
+        s0 = info["s0"]
+        s1 = st.heap[info["self_ref"].oid].payload
+        evs = st.ghost["events"]
+        vfails, ref = self.reference(cx, I, ov, info)
+        out = []
+        notifier_exc = kind == "raise" and isinstance(payload.origin, tuple) and payload.origin[0] == "notifier"
+        if kind == "return" or notifier_exc:
+            for (cond, _e) in vfails:
+                out.append(("post:every-inserted-item-validated", z3.Not(cond)))
+            for (rk, rp, g, s_after, rst) in ref:
+                if rk == "raise":
+                    out.append(("post:list-raises-here", z3.Not(g)))
+                else:
+                    out.append(("post:contents-as-list", z3.Implies(g, s1 == s_after)))
+                    if kind == "return":
+                        out.append(("post:result-as-list", z3.Implies(g, self.same_result(cx, info, payload, st, rp, rst))))
+            # events
+            if len(evs) > 1:
+                out.append(("post:at-most-one-event", z3.BoolVal(False)))
+            elif len(evs) == 0:
+                out.append(("post:event-when-contents-change", s1 == s0))
+            else:
+                ev = evs[0]
+                out.append(("post:event-after-mutation", ev.at == s1))
+                out += list_event_laws(B, s0, ev)
+        else:
+            alts = []
+            for (cond, e) in vfails:
+                alts.append(z3.And(cond, payload.sym == e) if payload.sym is not None else z3.BoolVal(False))
+            for (rk, rp, g, s_after, rst) in ref:
+                if rk == "raise":
+                    alts.append(z3.And(g, exc_same(payload, rp)))
+            out.append(("raise:same-exception-as-list-or-validator", z3.Or(*alts) if alts else z3.BoolVal(False)))
+            out.append(("raise:contents-unchanged", s1 == s0))
+            out.append(("raise:no-event", z3.BoolVal(len(evs) == 0)))
+        return out
+
+    def same_result(self, cx, info, payload, st, rp, rst):
+        if isinstance(payload, VNone) and isinstance(rp, VNone):
+            return z3.BoolVal(True)
+        if isinstance(payload, VRef) and isinstance(rp, VRef):
+            # in-place operators return the list itself
+            return z3.BoolVal(payload.oid == info["self_ref"].oid and rp.oid == 1)
+        if isinstance(payload, (VElem, VConst)) and isinstance(rp, (VElem, VConst)):
+            return payload.t == rp.t
+        return z3.BoolVal(False)
+
+    def covers(self, cx, ov, info):
+        return [("returns-normally", lambda k, p, s: k == "return")]
+
+
+@register
+class TLNotify(Contract):
+    """TraitList.notify(index, removed, added): every notifier is called once, in order, with
+    (self, index, removed, added).  Call-site summary: one event is appended to the ghost trace; a notifier
+    may raise (A-CB), in which case the exception propagates."""
+    path = PATH
+    qualname = "TraitList.notify"
+    properties = ("C05", "C02")
+    assumptions = ("A-CB:notifier",)
+
+    def configure(self, cx, I, ov):
+        cx.on_loop = foreach_call_loop
+
+    def setup(self, cx, I, ov):
+        st, self_ref, s0, V = make_list_self(cx)
+        idx = VInt(z3.Int("index"))
+        rem, st = alloc_list(cx, st, z3.Const("removed", SeqV))
+        add, st = alloc_list(cx, st, z3.Const("added", SeqV))
+        st = st.gset("calls", ())
+        return st, [self_ref, idx, rem, add], {}, dict(self_ref=self_ref, idx=idx, rem=rem, add=add,
+                                                        notifiers=z3.Const("notifiers", SeqV))
+
+    def post(self, cx, I, ov, info, kind, payload, st):
+        calls = st.ghost["calls"]
+        # the loop schema records ('foreach', seq, args, complete?) segments
+        ok = (len(calls) == 1 and calls[0][0] == "foreach")
+        if not ok:
+            return [("post:each-notifier-once-in-order", z3.BoolVal(False))]
+        _, seq, args, kwargs, upto = calls[0]
+        good_args = (len(args) == 4 and not kwargs and isinstance(args[0], VRef) and args[0].oid == info["self_ref"].oid
+                     and args[1] is info["idx"] and isinstance(args[2], VRef) and args[2].oid == info["rem"].oid
+                     and isinstance(args[3], VRef) and args[3].oid == info["add"].oid)
+        out = [("post:each-notifier-once-in-order", z3.And(seq == info["notifiers"], z3.BoolVal(good_args)))]
+        if kind == "return":
+            out.append(("post:all-notifiers-called", upto == z3.Length(seq)))
+        else:
+            out.append(("raise:only-from-a-notifier", z3.BoolVal(isinstance(payload.origin, tuple) and payload.origin[0] == "notifier")))
+        return out
+
+    def summary(self, I, self_ref, args, kwargs, st, k):
+        cx, B = I.cx, I.bi
+        names = ["index", "removed", "added"]
+        vals = dict(zip(names, args))
+        vals.update(kwargs)
+        if set(vals) != set(names):
+            return raise_(st, "TypeError")
+        rem, add = B.seq_of(vals["removed"], st), B.seq_of(vals["added"], st)
+        if rem is None or add is None:
+            raise Unsupported("notify with non-list removed/added")
+        ev = Ev(vals["index"], rem, add, st.heap[self_ref.oid].payload)
+        st2 = st.gset("events", st.ghost.get("events", ()) + (ev,))
+        out = k(NONE, st2)
+        nseq = st.heap[st.heap[self_ref.oid].fields["notifiers"].oid].payload
+        e = cx.fresh("notifier_exc", Exc)
+        stE = st2.assume(z3.Length(nseq) > 0, *cx.exc_axioms(e))
+        out.append(("raise", VExc(sym=e, origin=("notifier",)), stE))
+        return out
+
+
+def alloc_list(cx, st, seq):
+    r = VRef(cx.new_oid())
+    return r, st.put(r.oid, HObj("list", seq))
+
+
+def foreach_call_loop(I, node, ordinal, it, st):
+    """Loop schema for `for f in <seq of opaque callables>: f(<loop-invariant args>)`:
+    the body must be exactly one call of the loop variable.  The ghost trace gets one segment
+    ('foreach', seq, args, kwargs, upto): f_0 .. f_{upto-1} were called in order with those arguments.
+    Each call may raise (A-CB notifier), which ends the loop at that index."""
+    import ast
+    cx = I.cx
+    if not (isinstance(node, ast.For) and isinstance(node.target, ast.Name) and len(node.body) == 1
+            and isinstance(node.body[0], ast.Expr) and isinstance(node.body[0].value, ast.Call)
+            and isinstance(node.body[0].value.func, ast.Name) and node.body[0].value.func.id == node.target.id
+            and not node.orelse):
+        return None
+    seq = I.bi.iter_seq(it, st)
+    if seq is None:
+        return None
+    call = node.body[0].value
+    loopvar = node.target.id
+
+    def uses_loopvar(n):
+        return any(isinstance(x, ast.Name) and x.id == loopvar for x in ast.walk(n))
+    if any(uses_loopvar(a) for a in call.args) or any(uses_loopvar(kw.value) for kw in call.keywords):
+        return None
+
+    def with_args(args, st2):
+        def with_kw(kv, st3):
+            kwargs = dict(zip([kw.arg for kw in call.keywords], kv))
+            n = z3.Length(seq)
+            seg_all = ("foreach", seq, tuple(args), kwargs, n)
+            out = [("next", None, st3.gset("calls", st3.ghost.get("calls", ()) + (seg_all,)))]
+            kk = cx.fresh_int("kraise")
+            e = cx.fresh("notifier_exc", Exc)
+            stE = st3.assume(0 <= kk, kk < n, *cx.exc_axioms(e))
+            seg_part = ("foreach", seq, tuple(args), kwargs, kk + 1)
+            if cx.feasible(stE):
+                out.append(("raise", VExc(sym=e, origin=("notifier", kk)),
+                            stE.gset("calls", stE.ghost.get("calls", ()) + (seg_part,))))
+            return out
+        return I.ev_list([kw.value for kw in call.keywords], st2, with_kw)
+    return I.ev_list(call.args, st, with_args)
+
+
+def _single(V, x):
+    return [(z3.Not(V.ok(x)), V.exc(x))]
+
+
+def _seq_fail(cx, V, S):
+    k = first_failing(cx, V, S)
+    return [(k >= 0, V.exc(S[ite(k >= 0, k, z3.IntVal(0))]))]
+
+
+def opaque_iterable(cx, st, name="value"):
+    """An iterable argument: modelled as a list holding an arbitrary finite sequence (A-CB: finite,
+    does not raise, distinct from `self`)."""
+    S = z3.Const(name, SeqV)
+    r, st = alloc_list(cx, st, S)
+    return r, S, st
+
+
+@register
+class TLSetItem(ListMutator):
+    qualname = "TraitList.__setitem__"
+    overloads = ("int", "slice")
+
+    def args(self, cx, ov, st):
+        if ov == "int":
+            key, x = z3.Int("key"), z3.Const("value", Val)
+            return st, [VInt(key), VElem(x)], {}, dict(key=VInt(key), x=x, witness=dict(key=key, value=x))
+        sl = sym_slice(cx, "key")
+        r, S, st = opaque_iterable(cx, st)
+        return st, [sl, r], {}, dict(key=sl, S=S, witness=dict(value=S, **slice_witness(sl)))
+
+    def reference(self, cx, I, ov, info):
+        V = info["V"]
+        if ov == "int":
+            return _single(V, info["x"]), self.run_builtin(I, info, "__setitem__", [info["key"], VElem(V.val(info["x"]))])
+        R = validated_seq(cx, V, info["S"])
+        return _seq_fail(cx, V, info["S"]), self.run_builtin(I, info, "__setitem__", [info["key"], VFunc("iterable", seq=R)])
+
+
+@register
+class TLDelItem(ListMutator):
+    qualname = "TraitList.__delitem__"
+    overloads = ("int", "slice")
+
+    def args(self, cx, ov, st):
+        if ov == "int":
+            key = z3.Int("key")
+            return st, [VInt(key)], {}, dict(key=VInt(key), witness=dict(key=key))
+        sl = sym_slice(cx, "key")
+        return st, [sl], {}, dict(key=sl, witness=slice_witness(sl))
+
+    def reference(self, cx, I, ov, info):
+        return [], self.run_builtin(I, info, "__delitem__", [info["key"]])
+
+
+@register
+class TLAppend(ListMutator):
+    qualname = "TraitList.append"
+
+    def args(self, cx, ov, st):
+        x = z3.Const("object", Val)
+        return st, [VElem(x)], {}, dict(x=x, witness=dict(object=x))
+
+    def reference(self, cx, I, ov, info):
+        V = info["V"]
+        return _single(V, info["x"]), self.run_builtin(I, info, "append", [VElem(V.val(info["x"]))])
+
+
+@register
+class TLExtend(ListMutator):
+    qualname = "TraitList.extend"
+    refop = "extend"
+
+    def args(self, cx, ov, st):
+        r, S, st = opaque_iterable(cx, st, "iterable")
+        return st, [r], {}, dict(S=S, witness=dict(iterable=S))
+
+    def reference(self, cx, I, ov, info):
+        V = info["V"]
+        R = validated_seq(cx, V, info["S"])
+        return _seq_fail(cx, V, info["S"]), self.run_builtin(I, info, self.refop, [VFunc("iterable", seq=R)])
+
+
+@register
+class TLIAdd(TLExtend):
+    qualname = "TraitList.__iadd__"
+    refop = "__iadd__"
+
+
+@register
+class TLIMul(ListMutator):
+    qualname = "TraitList.__imul__"
+
+    def args(self, cx, ov, st):
+        m = z3.Int("value")
+        return st, [VInt(m)], {}, dict(m=m, witness=dict(value=m))
+
+    def reference(self, cx, I, ov, info):
+        return [], self.run_builtin(I, info, "__imul__", [VInt(info["m"])])
+
+
+@register
+class TLInsert(ListMutator):
+    qualname = "TraitList.insert"
+
+    def args(self, cx, ov, st):
+        i, x = z3.Int("index"), z3.Const("object", Val)
+        return st, [VInt(i), VElem(x)], {}, dict(i=i, x=x, witness=dict(index=i, object=x))
+
+    def reference(self, cx, I, ov, info):
+        V = info["V"]
+        return _single(V, info["x"]), self.run_builtin(I, info, "insert", [VInt(info["i"]), VElem(V.val(info["x"]))])
+
+
+@register
+class TLPop(ListMutator):
+    qualname = "TraitList.pop"
+    overloads = ("index", "default")
+
+    def args(self, cx, ov, st):
+        if ov == "default":
+            return st, [], {}, dict(i=None)
+        i = z3.Int("index")
+        return st, [VInt(i)], {}, dict(i=i, witness=dict(index=i))
+
+    def reference(self, cx, I, ov, info):
+        return [], self.run_builtin(I, info, "pop", [VInt(info["i"])] if info["i"] is not None else [])
+
+
+@register
+class TLRemove(ListMutator):
+    qualname = "TraitList.remove"
+
+    def args(self, cx, ov, st):
+        x = z3.Const("value", Val)
+        return st, [VElem(x)], {}, dict(x=x, witness=dict(value=x))
+
+    def reference(self, cx, I, ov, info):
+        return [], self.run_builtin(I, info, "remove", [VElem(info["x"])])
+
+
+@register
+class TLClear(ListMutator):
+    qualname = "TraitList.clear"
+
+    def args(self, cx, ov, st):
+        return st, [], {}, {}
+
+    def reference(self, cx, I, ov, info):
+        return [], self.run_builtin(I, info, "clear", [])
+
+
+@register
+class TLReverse(ListMutator):
+    qualname = "TraitList.reverse"
+
+    def args(self, cx, ov, st):
+        return st, [], {}, {}
+
+    def reference(self, cx, I, ov, info):
+        return [], self.run_builtin(I, info, "reverse", [])
+
+
+@register
+class TLSort(ListMutator):
+    qualname = "TraitList.sort"
+    overloads = ("default", "key")
+
+    def args(self, cx, ov, st):
+        rv = z3.Bool("reverse")
+        if ov == "default":
+            return st, [], {"reverse": VBool(rv)}, dict(kw={"reverse": VBool(rv)}, witness=dict(reverse=rv))
+        keyf = VElem(z3.Const("keyfn", Val))
+        kw = {"key": keyf, "reverse": VBool(rv)}
+        return st, [], dict(kw), dict(kw=kw, witness=dict(reverse=rv))
+
+    def reference(self, cx, I, ov, info):
+        return [], self.run_builtin(I, info, "sort", [], dict(info["kw"]))
